@@ -20,7 +20,9 @@ LSet == Language("org.verif.set",
        << Or("u", Ovr(<< Col(Un(F("ps"), F("qs")), St("t")) >>)),
           Or("n", Ovr(<< Col(In(F("rs"), F("ps")), St("t")) >>)),
           Or("d", Ovr(<< Col(Df(F("rs"), F("ps")), St("t")) >>)),
-          Or("dd", Ovr(<< Col(Df(Un(F("ps"), F("qs")), F("rs")), St("t")), St("u") >>)) >>) >>,
+          Or("dd", Ovr(<< Col(Df(Un(F("ps"), F("qs")), F("rs")), St("t")), St("u") >>)),
+          \* a difference whose left operand is a two-hop collect: one target may be reached twice (set semantics)
+          Or("m", Ovr(<< Col(Df(Col(F("rs"), F("hr")), Col(F("ps"), F("hp"))), St("u")) >>)) >>) >>,
   << AssocMany("HP", "Ha", "hp", "ps", "Pa"),
      AssocMany("HQ", "Ha", "hq", "qs", "Qa"),
      AssocMany("HR", "Ha", "hr", "rs", "Ra") >>)
